@@ -947,8 +947,20 @@ def ctx_unit2(run, rng, n):
                 req[2].append([0, rs])
             elif k == 1:
                 a, t = rng.choice(addrs), rng.choice(toks + used)
-                res.append(1 if ctx._validateChallengeResponse(Stub(a, 12345), t) else 0)
+                issued = ctx.temp_connections[a].token if a in ctx.temp_connections else None
+                ok = 1 if ctx._validateChallengeResponse(Stub(a, 12345), t) else 0
+                res.append(ok)
                 req[2].append([1, a, t])
+                # oracle (implementation only): accepted only with the token issued to THIS pending connection
+                if ok and issued != t:
+                    run.oracle_violation("challenge-accepted-with-a-token-not-issued-to-this-connection",
+                                         {"addr": a, "echoed_token": t, "issued_token": issued,
+                                          "temp": [[x, c.token] for x, c in ctx.temp_connections.items()],
+                                          "connected": [[x, c.token] for x, c in ctx.connections.items()]},
+                                         "ServerContext._validateChallengeResponse")
+                if not ok and issued == t and issued is not None:
+                    run.oracle_violation("challenge-with-the-issued-token-refused",
+                                         {"addr": a, "echoed_token": t}, "ServerContext._validateChallengeResponse")
             else:
                 a = rng.choice(addrs)
                 st = objs.get(a) or Stub(a, rng.choice(toks))
@@ -975,6 +987,19 @@ def replay(run, data):
     install_logtap()
     f = data.get("failure") or {}
     case = f.get("case") or {}
+    if "echoed_token" in case:
+        from mpgameserver.context import ServerContext
+        ctx = ServerContext(S.Handler(), S.root_key())
+        mk = lambda a, t: type("Stub", (), {"addr": a, "token": t})()
+        for a, t in case.get("temp", []):
+            ctx.temp_connections[a] = mk(a, t)
+        for a, t in case.get("connected", []):
+            ctx.connections[a] = mk(a, t)
+        ok = bool(ctx._validateChallengeResponse(mk(case["addr"], 12345), case["echoed_token"]))
+        bad = ok != (case.get("issued_token") == case["echoed_token"])
+        print(json.dumps({"recorded": f.get("what"), "accepted": ok, "issued": case.get("issued_token"),
+                          "echoed": case["echoed_token"], "violates": bad}))
+        return 1 if bad else 0
     sess = Session(run, pinned=case.get("pinned", True))
     for step in case.get("script", []):
         k = step[0]
